@@ -107,22 +107,29 @@ def has_all_inf_column(X, y):
                and not np.isfinite(X[:, j]).any() for j in range(X.shape[1]))
 
 
-def spec_load(X, y):
-    """independent restatement of the documented cleaning (all flags on)"""
+def spec_load(X, y, replace_inf=True, impute=True, remove_nan=True):
+    """independent restatement of the documented cleaning; each phase only
+    when its flag is given, nothing else is altered"""
     X = X.copy()
     zero = y == 0
-    for j in range(X.shape[1]):
-        nan = np.isnan(X[:, j])
-        if np.any(zero & nan) and np.any(zero & ~nan):
-            X[zero & nan, j] = np.mean(X[zero & ~nan, j])
-    keep = ~np.isnan(X).any(axis=1)
-    X, y = X[keep], y[keep]
-    for j in range(X.shape[1]):
-        inf = np.isinf(X[:, j])
-        if inf.any():
-            ext = np.max(np.abs(X[~inf, j]))
-            X[np.isposinf(X[:, j]), j] = 2 * ext
-            X[np.isneginf(X[:, j]), j] = -2 * ext
+    if impute:
+        for j in range(X.shape[1]):
+            nan = np.isnan(X[:, j])
+            if np.any(zero & nan) and np.any(zero & ~nan):
+                X[zero & nan, j] = np.mean(X[zero & ~nan, j])
+    if remove_nan:
+        keep = ~np.isnan(X).any(axis=1)
+        X, y = X[keep], y[keep]
+    if replace_inf:
+        for j in range(X.shape[1]):
+            inf = np.isinf(X[:, j])
+            if inf.any():
+                fin = np.isfinite(X[:, j])
+                if not fin.any():
+                    raise ValueError("column without finite entries")
+                ext = np.max(np.abs(X[fin, j]))
+                X[np.isposinf(X[:, j]), j] = 2 * ext
+                X[np.isneginf(X[:, j]), j] = -2 * ext
     return X, y
 
 
@@ -179,6 +186,31 @@ def check_loader(run):
                      + "; ".join(q(v) for v in yr) + f"], {exp})")
         descr.append(str({k2: cfg[k2] for k2 in ("flags", "pattern", "shape")})
                      + " -> " + out[0])
+        # direct oracle for the other flag combinations: the phases whose
+        # flags are given, nothing else altered
+        if not all(flags) and out[0] == "ok":
+            try:
+                Xs, ys = spec_load(Xr, yr, *flags)
+                Xo2 = Xo.reshape(-1, len(sub))
+                if Xs.shape != Xo2.shape or not np.allclose(
+                        Xs, Xo2, rtol=1e-12, atol=0, equal_nan=True) or \
+                        not np.array_equal(ys, out[2]):
+                    j_ = None
+                    if Xs.shape == Xo2.shape:
+                        bad_ = ~((Xs == Xo2) | (np.isnan(Xs) & np.isnan(Xo2))
+                                 | np.isclose(Xs, Xo2, rtol=1e-12, atol=0))
+                        if bad_.any():
+                            r_, c_ = np.argwhere(bad_)[0]
+                            j_ = (f"row {r_}, {sub[c_]}: {Xo2[r_, c_]!r} "
+                                  f"loaded, {Xs[r_, c_]!r} documented")
+                    run.failing(SITE, key, "loaded matrix/responses differ "
+                                f"from the documented cleaning with flags "
+                                f"(replace_inf, impute, remove_nan) = {flags}"
+                                f" ({pat}, shape {X.shape}; {j_})",
+                                payload={"kind": "load", "cfg": cfg},
+                                theorem="C15_aligned_and_frame")
+            except ValueError:
+                pass
         # direct oracle
         if all(flags):
             has_allinf = False
